@@ -27,11 +27,28 @@ import (
 	"github.com/libp2p/go-libp2p/core/crypto"
 	mh "github.com/multiformats/go-multihash"
 	"go.uber.org/zap"
+	"google.golang.org/grpc"
+	"google.golang.org/grpc/metadata"
 	"google.golang.org/protobuf/proto"
 
 	"berty.tech/weshnet/v2/internal/vharness"
 	"berty.tech/weshnet/v2/pkg/protocoltypes"
 )
+
+type c20exportStream struct {
+	ctx context.Context
+	buf bytes.Buffer
+}
+
+func (s *c20exportStream) SetHeader(metadata.MD) error  { return nil }
+func (s *c20exportStream) SendHeader(metadata.MD) error { return nil }
+func (s *c20exportStream) SetTrailer(metadata.MD)       {}
+func (s *c20exportStream) Context() context.Context     { return s.ctx }
+func (s *c20exportStream) RecvMsg(m any) error          { return fmt.Errorf("no input") }
+func (s *c20exportStream) SendMsg(m any) error {
+	s.buf.Write(m.(*protocoltypes.ServiceExportData_Reply).ExportedData)
+	return nil
+}
 
 type c20file struct {
 	name string
@@ -404,11 +421,13 @@ func c20history(t *testing.T, pctx context.Context, out *vharness.Out, rng *rand
 	for _, g := range w.groups {
 		svc.openedGroups[string(g.g.PublicKey)] = g.gc
 	}
-	var buf bytes.Buffer
-	if err := svc.export(ctx, &buf); err != nil {
+	// through the streaming RPC handler (ServiceExportData), which wraps service.export
+	exp := &c20exportStream{ctx: ctx}
+	if err := svc.ServiceExportData(&protocoltypes.ServiceExportData_Request{},
+		&grpc.GenericServerStream[protocoltypes.ServiceExportData_Request, protocoltypes.ServiceExportData_Reply]{ServerStream: exp}); err != nil {
 		t.Fatal(err)
 	}
-	archive := buf.Bytes()
+	archive := exp.buf.Bytes()
 	files := c20parse(archive)
 	wantLogs, wantState, _ := w.logsOf(func(g *protocoltypes.Group) (*GroupContext, error) {
 		for _, x := range w.groups {
